@@ -19,7 +19,7 @@ from bv.stacks.device import Device
 
 PROPERTY = "C10"
 LEVEL = "model_checking"
-BUDGET = {"quick": 95.0, "thorough": 1500.0}
+BUDGET = {"quick": 120.0, "thorough": 1500.0}
 RULE = ("mutations: for each base frame (one per service, LAN and B/IP level) every single-octet substitution with all 256 "
         "values, every truncation and every one-octet insertion from 8 values, each delivered to a fresh real device that is "
         "then run to quiescence (all timers), followed by a valid ReadProperty probe; histories: every ordered sequence of <=2 "
